@@ -363,6 +363,48 @@ def _has_quantifier(t):
     return r
 
 
+def discharge_all(obs, use_cvc5):
+    """discharge the obligations of one unit, fanning out over forked children (the z3 terms live in this
+    process's memory, so fork -- not pickling -- is what lets children share them)"""
+    import json as _json
+    nproc = int(os.environ.get("PYVC_OB_PROCS", "1"))
+    if nproc <= 1 or len(obs) < 8:
+        return [discharge(ob, use_cvc5) for ob in obs]
+    nproc = min(nproc, len(obs))
+    chunks = [list(range(k, len(obs), nproc)) for k in range(nproc)]
+    children = []
+    for idxs in chunks:
+        r, w = os.pipe()
+        pid = os.fork()
+        if pid == 0:
+            os.close(r)
+            out = {}
+            try:
+                for i in idxs:
+                    try:
+                        out[i] = discharge(obs[i], use_cvc5)
+                    except Exception as e:          # pragma: no cover
+                        out[i] = dict(verdict="timeout", backend="z3", time=0.0, detail="checker error: " + repr(e))
+                with os.fdopen(w, "w") as f:
+                    _json.dump(out, f)
+            finally:
+                os._exit(0)
+        os.close(w)
+        children.append((pid, r, idxs))
+    res = [None] * len(obs)
+    for pid, r, idxs in children:
+        with os.fdopen(r) as f:
+            data = f.read()
+        os.waitpid(pid, 0)
+        try:
+            out = _json.loads(data)
+        except Exception:
+            out = {}
+        for i in idxs:
+            res[i] = out.get(str(i)) or dict(verdict="timeout", backend="z3", time=0.0, detail="child produced no verdict")
+    return res
+
+
 def model_summary(m, limit=60):
     lines = []
     for d in m.decls():
@@ -421,8 +463,8 @@ def verify_unit(program, spec, qualname, recv_cls=None, use_cvc5=True, keep=Fals
         probe.add(a)
     pr = probe.check()
     res.vacuous = (pr == z3.unsat)
-    for ob in ex.obligations:
-        d = discharge(ob, use_cvc5)
+    verdicts = discharge_all(ex.obligations, use_cvc5)
+    for ob, d in zip(ex.obligations, verdicts):
         rec = dict(id=ob.id, kind=ob.kind, label=ob.label, line=ob.line, stack=ob.meta.get("stack"))
         rec.update(d)
         if keep:
